@@ -48,10 +48,255 @@ let check_sc line f =
     bump "SC" (if !d > 0 then 1 else 0)
   | _ -> failwith "SC fields"
 
+
+(* ---------- helpers ---------- *)
+let hx = n_of_hex
+let ni s = n_of_int (int_of_string s)
+let opt_n_str = function None -> "-" | Some x -> string_of_int (int_of_n x)
+let cmp_line kind line (checks : (string * string * string) list) =
+  (* (what, expected, got) *)
+  let d = ref 0 in
+  List.iter (fun (w, e, g) -> if e <> g then (incr d; diff kind w e line)) checks;
+  bump kind (if !d > 0 then 1 else 0)
+let hn x = hex_of_n x
+let norm_hex s = hex_of_n (n_of_hex s)
+
+(* ---------- C08 / C09 tables ---------- *)
+let table_index = function
+  | "knight" | "g_knight" -> 0 | "king" | "g_king" -> 1 | "rook_rays" | "g_rook_rays" -> 2
+  | "bishop_rays" | "g_bishop_rays" -> 3 | "pawn_att0" | "g_pawn_att0" -> 4 | "pawn_att1" | "g_pawn_att1" -> 5
+  | "g_pawn_quiet0" -> 6 | "g_pawn_quiet1" -> 7 | _ -> 99
+let nl l = List.map n_of_int l
+let const_expected name : n option =
+  let r = api_ranks and f = api_files in
+  let lor_ a b = api_or a b in
+  let pre p = String.length name > String.length p && String.sub name 0 (String.length p) = p in
+  let idx p = int_of_string (String.sub name (String.length p) (String.length name - String.length p)) in
+  match name with
+  | "PAWN_DOUBLE_SOURCE" -> Some (r (nl [1; 6])) | "PAWN_DOUBLE_DEST" -> Some (r (nl [3; 4]))
+  | "BACKRANK_BB0" -> Some (r (nl [0])) | "BACKRANK_BB1" -> Some (r (nl [7]))
+  | "CASTLE_MOVES" -> Some (api_squares (nl [2; 4; 6; 58; 60; 62]))
+  | "PAWN_DOUBLE_MOVE0" -> Some (r (nl [1; 3])) | "PAWN_DOUBLE_MOVE1" -> Some (r (nl [4; 6]))
+  | "ROOK_CASTLE_QUEENSIDE" -> Some (f (nl [0; 3])) | "ROOK_CASTLE_KINGSIDE" -> Some (f (nl [7; 5]))
+  | "KINGSIDE_CASTLE_FILES" -> Some (f (nl [5; 6])) | "QUEENSIDE_CASTLE_FILES" -> Some (f (nl [1; 2; 3]))
+  | "KINGSIDE_CASTLE_SAFE_FILES" -> Some (f (nl [5; 6])) | "QUEENSIDE_CASTLE_SAFE_FILES" -> Some (f (nl [2; 3]))
+  | "BACKRANK0" -> Some (n_of_int 0) | "BACKRANK1" -> Some (n_of_int 7)
+  | "PROMOTION_RANK0" -> Some (n_of_int 7) | "PROMOTION_RANK1" -> Some (n_of_int 0)
+  | "PAWN_DOUBLE_MOVE_SOURCE_RANK0" -> Some (n_of_int 1) | "PAWN_DOUBLE_MOVE_SOURCE_RANK1" -> Some (n_of_int 6)
+  | "PAWN_DOUBLE_MOVE_DEST_RANK0" -> Some (n_of_int 3) | "PAWN_DOUBLE_MOVE_DEST_RANK1" -> Some (n_of_int 4)
+  | _ ->
+    ignore lor_;
+    if pre "ADJACENT_FILES" then Some (api_adjacent (n_of_int (idx "ADJACENT_FILES")))
+    else if pre "ADJACENT_RANKS" then Some (api_adjacent_ranks (n_of_int (idx "ADJACENT_RANKS")))
+    else if pre "CASTLE_ROOK_START" then Some (n_of_int (if idx "CASTLE_ROOK_START" < 4 then 0 else 7))
+    else if pre "CASTLE_ROOK_END" then Some (n_of_int (if idx "CASTLE_ROOK_END" < 4 then 3 else 5))
+    else None
+
+let check_tables line f =
+  match f with
+  | ["TB"; name; s; v] ->
+    cmp_line "TB" line [("spec:" ^ name, hn (api_table (n_of_int (table_index name)) (ni s)), norm_hex v)]
+  | ["TP"; a; b; bt; ln; d] ->
+    let a = ni a and b = ni b in
+    cmp_line "TP" line [("spec:between", hn (api_between a b), norm_hex bt); ("spec:line", hn (api_line a b), norm_hex ln);
+                        ("spec:distance", string_of_int (int_of_n (api_dist a b)), d)]
+  | ["TG"; a; b; bt; ln] ->
+    let a = ni a and b = ni b in
+    cmp_line "TG" line [("spec:gen_between", hn (api_between a b), norm_hex bt); ("spec:gen_line", hn (api_line a b), norm_hex ln)]
+  | ["TC"; name; v] ->
+    (match const_expected name with
+     | Some e -> cmp_line "TC" line [("spec:" ^ name, hn e, norm_hex v)]
+     | None -> cmp_line "TC" line [("model:unknown-constant", "?", name)])
+  | ["PW"; s; c; occ; q; a; m] ->
+    let s = ni s and c = ni c and occ = hx occ in
+    cmp_line "PW" line [("spec:pawn_quiets", hn (api_pawn_quiets c s occ), norm_hex q);
+                        ("spec:pawn_attacks", hn (api_pawn_attacks c s occ), norm_hex a);
+                        ("spec:pawn_moves", hn (api_pawn_moves c s occ), norm_hex m)]
+  | ["MG"; k; s; occ; r] ->
+    let s = ni s and occ = hx occ in
+    let e = if k = "R" then api_rook_attacks s occ else api_bishop_attacks s occ in
+    cmp_line "MG" line [("spec:" ^ (if k = "R" then "rook_moves" else "bishop_moves"), hn e, norm_hex r)]
+  | ["ZK"; kind; i; v] ->
+    let k = match kind with "piece" -> 0 | "castle" -> 1 | "ep" -> 2 | _ -> 3 in
+    cmp_line "ZK" line [("model:zobrist-key-" ^ kind, hn (api_zk (n_of_int k) (ni i)), norm_hex v)]
+  | _ -> failwith "table fields"
+
+(* ---------- C18 bitboards ---------- *)
+let sq_csv l = String.concat "," (List.map (fun x -> string_of_int (int_of_n x)) l)
+let check_bb line f =
+  match f with
+  | ["BU"; a; nt; up; dn; lf; rt; fl; cnt; flags; it] ->
+    let a = hx a in
+    let els = api_elements a in
+    let len = List.length els in
+    let eflags = b01 (api_any a) ^ b01 (api_none a) ^ b01 (api_all a) ^ b01 (api_some a) in
+    cmp_line "BU" line
+      [("spec:not", hn (api_bb_not a), norm_hex nt); ("spec:shift_up", hn (api_shift_up a), norm_hex up);
+       ("spec:shift_down", hn (api_shift_down a), norm_hex dn); ("spec:shift_left", hn (api_shift_left a), norm_hex lf);
+       ("spec:shift_right", hn (api_shift_right a), norm_hex rt); ("spec:flip_ranks", hn (api_flip_ranks a), norm_hex fl);
+       ("spec:count", string_of_int len, cnt); ("spec:any/none/all/some", eflags, flags);
+       ("spec:iter", Printf.sprintf "%d:%d:%s" len len (sq_csv els), it)]
+  | ["BP"; a; r; rest] ->
+    let a = hx a in
+    let (er, erest) = match api_pop a with None -> ("-", a) | Some (s, a') -> (string_of_int (int_of_n s), a') in
+    (* set-level: least element removed *)
+    let (sr, srest) = match api_elements a with [] -> ("-", a) | s :: _ -> (string_of_int (int_of_n s), api_cleared a s) in
+    cmp_line "BP" line [("spec:pop", sr, r); ("spec:pop-rest", hn srest, norm_hex rest); ("model:pop", er, r); ("model:pop-rest", hn erest, norm_hex rest)]
+  | ["BF"; a; sq; bs] ->
+    let a = hx a in
+    cmp_line "BF" line [("spec:from_iter<Pos>", hn (api_from_squares (api_elements a)), norm_hex sq);
+                        ("spec:from_iter<BitBoard>", hn (api_from_boards (List.map api_from_pos (api_elements a))), norm_hex bs)]
+  | ["BS"; a; s; c; w; cl; agree] ->
+    let a = hx a and s = ni s in
+    cmp_line "BS" line [("spec:contains", b01 (api_contains a s), c); ("spec:with", hn (api_with a s), norm_hex w);
+                        ("spec:cleared", hn (api_cleared a s), norm_hex cl); ("spec:set/clear/sub agree", "11", agree)]
+  | ["BB"; a; b; o; an; x; d; agree] ->
+    let a = hx a and b = hx b in
+    cmp_line "BB" line [("spec:or", hn (api_or a b), norm_hex o); ("spec:and", hn (api_and a b), norm_hex an);
+                        ("spec:xor", hn (api_xor a b), norm_hex x); ("spec:diff", hn (api_diff a b), norm_hex d);
+                        ("spec:assign-ops agree", "1", agree)]
+  | ["BN"; a; n; r; rest] ->
+    let a = hx a and n = hx n in
+    let (er, erest) = api_nth_spec a n in
+    cmp_line "BN" line [("spec:nth", opt_n_str er, r); ("spec:nth-rest", hn erest, norm_hex rest)]
+  | ["BC"; kind; i; v; v2] ->
+    let i = ni i in
+    let e = match kind with "pos" -> api_from_pos i | "file" -> api_from_file i | "rank" -> api_from_rank i | _ -> N0 in
+    cmp_line "BC" line [("spec:from_" ^ kind, hn e, norm_hex v); ("spec:from_" ^ kind ^ "(iter/From)", hn e, norm_hex v2)]
+  | _ -> failwith "bb fields"
+
+(* ---------- C19 text ---------- *)
+let check_text line f =
+  match f with
+  | ["TX"; h; fl; rk; ps; pc; pr; mv; strok] ->
+    let b = bytes_of_hex h in
+    let emv = match api_move_from_ascii_bytes b with
+      | None -> "-" | Some (a, c) -> Printf.sprintf "%d,%d,-" (int_of_n a) (int_of_n c) in
+    cmp_line "TX" line
+      [("spec:File::from_ascii_bytes", opt_n_str (api_file_from_ascii_bytes b), fl);
+       ("spec:Rank::from_ascii_bytes", opt_n_str (api_rank_from_ascii_bytes b), rk);
+       ("spec:Pos::from_ascii_bytes", opt_n_str (api_pos_from_ascii_bytes b), ps);
+       ("spec:Piece::from_ascii_bytes", opt_n_str (api_piece_from_ascii_bytes b), pc);
+       ("spec:PromotionPiece::from_ascii_bytes", opt_n_str (api_promo_from_ascii_bytes b), pr);
+       ("spec:ChessMove::from_ascii_bytes", emv, mv); ("spec:FromStr agrees", "1", strok)]
+  | "TS" :: kind :: i :: h :: rest ->
+    let i = ni i in
+    let e = match kind with "pos" -> api_pos_show i | "file" -> api_file_show i | _ -> api_rank_show i in
+    let he = String.concat "" (List.map (fun x -> Printf.sprintf "%02x" (int_of_n x)) e) in
+    let extra = match kind, rest with
+      | "file", [lu] -> [("spec:lower/upper_letter", Printf.sprintf "%02x%02x" (97 + int_of_n i) (65 + int_of_n i), lu)]
+      | _ -> [] in
+    cmp_line "TS" line (("spec:Display " ^ kind, he, h) :: extra)
+  | ["TM"; a; b; pr; h] ->
+    let p = if pr = "-" then None else Some (ni pr) in
+    let e = api_move_show_full (ni a) (ni b) p in
+    cmp_line "TM" line [("spec:Display ChessMove", String.concat "" (List.map (fun x -> Printf.sprintf "%02x" (int_of_n x)) e), h)]
+  | ["PU"; n; ps; fl; rk; pc; co; sd] ->
+    let n = ni n in
+    let e k = opt_n_str (api_enum_from_u8 (n_of_int k) n) in
+    cmp_line "PU" line [("spec:Pos::from_u8", e 64, ps); ("spec:File::from_u8", e 8, fl); ("spec:Rank::from_u8", e 8, rk);
+                        ("spec:Piece::from_u8", e 6, pc); ("spec:Color::from_u8", e 2, co); ("spec:Side::from_u8", e 2, sd)]
+  | ["PS"; s; fl; rk; up; dn; lf; rt; flip; nw; u8] ->
+    let s' = ni s in
+    cmp_line "PS" line
+      [("spec:file", string_of_int (int_of_n (api_pos_file s')), fl); ("spec:rank", string_of_int (int_of_n (api_pos_rank s')), rk);
+       ("spec:shift_up", opt_n_str (api_pos_shift_up s'), up); ("spec:shift_down", opt_n_str (api_pos_shift_down s'), dn);
+       ("spec:shift_left", opt_n_str (api_pos_shift_left s'), lf); ("spec:shift_right", opt_n_str (api_pos_shift_right s'), rt);
+       ("spec:flip_rank", string_of_int (int_of_n (api_pos_flip_rank s')), flip); ("spec:new(file,rank)", s, nw); ("spec:to_u8", s, u8)]
+  | ["PF"; a; fl; fr; rd; ru; rf; side] ->
+    let a' = ni a in
+    cmp_line "PF" line
+      [("spec:File::shift_left", opt_n_str (api_file_shift_left a'), fl); ("spec:File::shift_right", opt_n_str (api_file_shift_right a'), fr);
+       ("spec:Rank::shift_down", opt_n_str (api_rank_shift_down a'), rd); ("spec:Rank::shift_up", opt_n_str (api_rank_shift_up a'), ru);
+       ("spec:Rank::flip", string_of_int (int_of_n (api_rank_flip a')), rf); ("spec:File::side", (if int_of_string a < 4 then "1" else "0"), side)]
+  | ["PD"; a; b; fd; rd; nw] ->
+    let a' = ni a and b' = ni b in
+    let d = string_of_int (int_of_n (api_dist_to a' b')) in
+    cmp_line "PD" line [("spec:File::dist_to", d, fd); ("spec:Rank::dist_to", d, rd); ("spec:Pos::new", string_of_int (int_of_n (api_pos_new a' b')), nw)]
+  | ["PN"; a; b; c; d] ->
+    let e x = string_of_int (int_of_n x) in
+    cmp_line "PN" line [("spec:!White", e (api_color_not N0), a); ("spec:!Black", e (api_color_not (n_of_int 1)), b);
+                        ("spec:!Side::King", e (api_side_not N0), c); ("spec:!Side::Queen", e (api_side_not (n_of_int 1)), d)]
+  | ["IT"; kind; ops; res] ->
+    let ops_l = List.filter (fun x -> x <> "") (String.split_on_char ',' ops) in
+    let op_of x = match x.[0] with
+      | 'n' -> INext | 'b' -> INextBack | 's' -> ISizeHint
+      | 'N' -> INth (hx (String.sub x 1 (String.length x - 1)))
+      | _ -> INthBack (hx (String.sub x 1 (String.length x - 1))) in
+    let iops = List.map op_of ops_l in
+    let show_results k rs =
+      String.concat "," (List.map2 (fun o r -> match o, r with
+        | ISizeHint, Some v -> Printf.sprintf "%d:%d" (int_of_n v) (int_of_n v)
+        | _, r -> opt_n_str r) k rs) in
+    let k_of = function "file" | "rank" -> 8 | "piece" -> 6 | _ -> 2 in
+    (match kind with
+     | "file" | "rank" | "piece" | "color" | "side" ->
+       cmp_line "IT" line [("spec:iter " ^ kind, show_results iops (api_run_iter (n_of_int (k_of kind)) iops), res)]
+     | "pos" ->
+       let fops = List.map (fun o -> match o with ISizeHint -> ISizeHint | _ -> INext) iops in
+       cmp_line "IT" line [("spec:iter pos", show_results fops (api_run_allpos fops), res)]
+     | _ ->
+       (* File::iter / Rank::iter: squares of one file / rank, forward only *)
+       let which = (match iops with INth n :: _ -> int_of_n n mod 8 | _ -> 0) in
+       let rest = (match iops with _ :: r -> r | [] -> []) in
+       let pos = ref 0 in
+       let items = List.map (fun o -> match o with
+         | ISizeHint -> Printf.sprintf "%d:%d" (8 - !pos) (8 - !pos)
+         | _ -> if !pos >= 8 then "-" else begin
+             let v = if kind = "fileiter" then !pos * 8 + which else which * 8 + !pos in incr pos; string_of_int v end) rest in
+       cmp_line "IT" line [("spec:" ^ kind, String.concat "," (string_of_int which :: items), res)])
+  | _ -> failwith "text fields"
+
+(* ---------- C16 abi ---------- *)
+let promo_of = function "n" -> Some PKnight | "b" -> Some PBishop | "r" -> Some PRook | "q" -> Some PQueen | _ -> None
+let promo_str = function Some PKnight -> "n" | Some PBishop -> "b" | Some PRook -> "r" | Some PQueen -> "q" | None -> "-"
+let mv_of s = if s = "none" then None else
+    match String.split_on_char ',' s with
+    | [a; b; p] -> Some { c_src = ni a; c_dst = ni b; c_piece = promo_of p }
+    | _ -> failwith "mv"
+let mv_str = function None -> "none"
+  | Some m -> Printf.sprintf "%d,%d,%s" (int_of_n m.c_src) (int_of_n m.c_dst) (promo_str m.c_piece)
+let check_abi line f =
+  match f with
+  | ["AB"; m; via_stable; via_eval; sc] ->
+    let m' = mv_of m in
+    let e1 = (match m' with Some x -> mv_str (Some (api_abi_stable_rt x)) | None -> "none") in
+    let (e2, _) = api_abi_eval_rt m' SMin in
+    ignore sc;
+    cmp_line "AB" line [("spec:StableChessMove round trip", e1, via_stable); ("spec:EvaluatedMove move round trip", mv_str e2, via_eval);
+                        ("spec:lossless(move)", m, via_eval)]
+  | ["AS"; s; s2; m; m2] ->
+    let (em, es) = api_abi_eval_rt (mv_of m) (score_of_string s) in
+    cmp_line "AS" line [("spec:score round trip", string_of_score es, s2); ("spec:move round trip", mv_str em, m2);
+                        ("spec:lossless(score)", s, s2)]
+  | _ -> failwith "abi fields"
+
+(* ---------- C20 tracing ---------- *)
+let check_tr line f =
+  match f with
+  | ["TR"; n; ops; rows] ->
+    let n = int_of_string n in
+    let ths = List.init n n_of_int in
+    let tr = List.map (fun x ->
+        let t = Char.code x.[0] - 48 in
+        let o = match x.[1] with
+          | 'E' -> SEnable | 'D' -> SDisable | 'T' -> SToggle | 'e' -> SLocalEnable | 'd' -> SLocalDisable
+          | 't' -> SLocalToggle | 'k' -> SLocalTake | 'r' -> SRestoreTop | _ -> SIsEnabled in
+        (n_of_int t, o)) (List.filter (fun x -> x <> "") (String.split_on_char ',' ops)) in
+    let e = api_run_stack ths tr in
+    let es = String.concat "," (List.map (fun row -> String.concat "" (List.map b01 row)) e) in
+    cmp_line "TR" line [("spec:views after every step", es, rows)]
+  | _ -> failwith "tr fields"
+
 let dispatch line =
   let f = String.split_on_char '\t' line in
   match f with
   | "SC" :: _ -> check_sc line f
+  | ("TB" | "TP" | "TG" | "TC" | "PW" | "MG" | "ZK") :: _ -> check_tables line f
+  | ("BU" | "BP" | "BF" | "BS" | "BB" | "BN" | "BC") :: _ -> check_bb line f
+  | ("TX" | "TS" | "TM" | "PU" | "PS" | "PF" | "PD" | "PN" | "IT") :: _ -> check_text line f
+  | ("AB" | "AS") :: _ -> check_abi line f
+  | "TR" :: _ -> check_tr line f
   | k :: _ -> bump ("UNKNOWN:" ^ k) 1; diff "UNKNOWN" k "" line
   | [] -> ()
 
